@@ -197,6 +197,8 @@ def gen_cases(rng, tier):
                           "tags": ["order:" + label]})
     for _ in range(12 if tier == "thorough" else 6):
         cases.append(gen_price_case(rng))
+    for k in range(4 if tier == "thorough" else 2):
+        cases.append(gen_price_order_case(rng, scaled_first=(k % 2 == 0)))
     return cases
 
 
@@ -247,6 +249,32 @@ def gen_price_case(rng):
             o = ["q_bin", "div", f"{rat(m)}@{cur}", f"{rat(b)}@{xu}", MODE]
             ops.append(o); expect.append(f"ok qty {rat(m / b)}@{cur}/{xu}:{pname}")
     return {"ops": ops, "fork": True, "nsetup": nsetup, "expect": expect, "tags": ["prices"]}
+
+
+def gen_price_order_case(rng, scaled_first):
+    """a money-per-mass type (no reference unit) with the units of ONE currency
+    over g, kg and t declared with the scaled ones first or last: money /
+    mass lands in the unit of the divisor's own mass unit either way"""
+    from props import C10, _money
+    cur = rng.choice(C10.CODES)
+    ops = [["load_predefined"]] + _money.setup(C10.CODES)
+    ops.append(["decl_class", "PricePerMass", "c:Money^1;c:Mass^-1", "-", "0", "-"])
+    nsetup = len(ops)
+    expect = []
+    order = ["g", "t", "kg"] if scaled_first else ["kg", "g", "t"]
+    for xu in order:
+        ops.append(["derive_unit", "PricePerMass", f"{cur},{xu}", "-"]); expect.append(f"ok {cur}/{xu}")
+    frac = _money.frac_of(cur)
+    from oracles import round_ref
+    for _ in range(12):
+        xu = rng.choice(order)
+        m = round_ref(Fraction(rng.randint(1, 99999), 100) / frac, MODE) * frac
+        b = Fraction(rng.randint(1, 99), rng.choice([1, 2, 4]))
+        o = ["q_bin", "div", f"{rat(m)}@{cur}", f"{rat(b)}@{xu}", MODE]
+        ops.append(o); expect.append(f"ok qty {rat(m / b)}@{cur}/{xu}:PricePerMass")
+        ops.append(["uop", "div", cur, xu]); expect.append(f"ok pair 1/1 {cur}/{xu}")
+    return {"ops": ops, "fork": True, "nsetup": nsetup, "expect": expect,
+            "tags": ["prices", "order:" + ("scaled-first" if scaled_first else "scaled-last")]}
 
 
 def search_cases(rng, focus, broken):
